@@ -5,8 +5,9 @@
 set -u
 patch=$(readlink -f "$1"); demo=$(readlink -f "$2"); out=$3
 mkdir -p "$out"
+slot=${VS_SLOT:-0}
 wt=/tmp/vs/wt.$$
-export CARGO_NET_OFFLINE=true CARGO_TARGET_DIR=/tmp/vs/target
+export CARGO_NET_OFFLINE=true CARGO_TARGET_DIR=/tmp/vs/target-$slot CARGO_BUILD_JOBS=8
 git -C /repo worktree add -q --detach "$wt" HEAD || exit 2
 cd "$wt"
 res=0
@@ -18,7 +19,7 @@ echo "== demo WITH patch" >> "$out/verify.log"
 if RUSTFLAGS="--cfg redb_verif" cargo test --offline --features experimental_cursor --test seed_demo >> "$out/verify.log" 2>&1; then echo "demo_with_patch=PASS(unexpected)" | tee -a "$out/verify.log"; res=1; else echo "demo_with_patch=fail(expected)" | tee -a "$out/verify.log"; fi
 rm -f tests/seed_demo.rs
 echo "== suite WITH patch" >> "$out/verify.log"
-cargo nextest run -p redb@4.2.0 -p redb-derive -p redb-derive-rename-test --features redb/experimental_cursor --no-fail-fast --tool-config-file pb:/w/lib/nextest.toml --profile pb --test-threads 8 --offline > "$out/suite.log" 2>&1
+cargo nextest run -p redb@4.2.0 -p redb-derive -p redb-derive-rename-test --features redb/experimental_cursor --no-fail-fast --tool-config-file pb:/w/lib/nextest.toml --profile pb --test-threads 6 --offline > "$out/suite.log" 2>&1
 tail -3 "$out/suite.log" | tee -a "$out/verify.log"
 if grep -q "448 tests run: 448 passed" "$out/suite.log"; then echo "suite=448 passed" | tee -a "$out/verify.log"; else echo "suite=NOT 448 passed" | tee -a "$out/verify.log"; res=1; fi
 cd /; git -C /repo worktree remove --force "$wt"
